@@ -31,3 +31,54 @@ def unselected_option_confirmed_elsewhere(case, v):
         if any(o in nodes and o not in selected for o in c['opts']):
             return True
     return False
+
+
+def _d(v):
+    return v.get('data') or {}
+
+
+def eager_direct_hit_reports_inactive_as_active(case, v):
+    """KF02: eager (matrix-table) encoders: a vector that hits a stored design vector directly is returned with all
+    leading variables active, while the same matrix reached through imputation reports the stored inactive (-1)
+    variables as inactive. Same vector, same matrix, strictly more variables active on the direct hit."""
+    d = _d(v)
+    return d.get('group') in ('eager', 'enum') and bool(d.get('same_vec')) and bool(d.get('same_mat')) and \
+        bool(d.get('more_active'))
+
+
+def zero_variables_listed_with_surplus_column(case, v):
+    """KF03: coding without declared variables (exactly one matrix): get_all_design_vectors lists a 1-column vector"""
+    d = _d(v)
+    return d.get('n_dv') == 0
+
+
+def eager_delta_closest_imputer_narrow_pattern(case, v):
+    """KF04: non-default eager imputers (DeltaImputer, ClosestImputer) with several existence patterns whose design
+    vectors have different widths: broadcast error / empty matrix returned"""
+    d = _d(v)
+    return d.get('group') in ('eager', 'enum') and d.get('imputer') in ('DeltaImputer', 'ClosestImputer') and \
+        (d.get('n_patterns') or 0) > 1
+
+
+def lazy_encoder_declares_unused_value(case, v):
+    """KF05: lazy encoders derive their variables from per-slot bounds without enumerating: a declared variable can have
+    a single value that is ever used"""
+    d = _d(v)
+    return d.get('group') == 'lazy'
+
+
+def pattern_encoder_cannot_decode_declared_value(case, v):
+    """KF06: a pattern encoder accepted the settings but raises 'Pattern encoder should never (automatically) impute'
+    for declared values (settings with existence patterns that absent nodes or override degree lists)"""
+    d = _d(v)
+    return d.get('group') == 'pattern' and 'Pattern encoder should never' in (d.get('msg') or v.get('detail', ''))
+
+
+def pattern_encoder_single_option_variable(case, v):
+    """KF07: a pattern encoder matches the settings but its encoding has a variable with one option; LazyEncoder
+    .set_settings then raises RuntimeError('All design variables must have at least 2 options') instead of the
+    documented InvalidPatternEncoder 'does not apply' outcome"""
+    d = _d(v)
+    msg = d.get('msg') or v.get('detail', '')
+    return 'All design variables must have at least 2 options' in msg and \
+        (d.get('combo', [''])[0] == 'pattern' or 'set_settings' in v.get('sig', ''))
